@@ -51,6 +51,9 @@ func validateRangeOptions(options []string) error {
 			bylex = true
 		case "rev", "withscores":
 		case "limit":
+			if i+2 >= len(options) {
+				return errors.New("limit should contain offset and count as integers")
+			}
 			i += 2
 		default:
 			return fmt.Errorf("invalid option %s", options[i])
